@@ -295,7 +295,11 @@ func (g *FuncGen) bindArgs(c *ast.CallExpr, sig *types.Signature, st *State) (re
 			args = append(args, Val{fmt.Sprintf("(mkseq %d %s)", len(rest), arr), vt, s})
 			return
 		}
-		args = append(args, g.ev(a, st))
+		av := g.ev(a, st)
+		if i < sig.Params().Len() {
+			av = coerce(av, sig.Params().At(i).Type())
+		}
+		args = append(args, av)
 	}
 	if sig.Variadic() && len(c.Args) < sig.Params().Len() {
 		vt := sig.Params().At(sig.Params().Len() - 1).Type()
